@@ -1,5 +1,5 @@
-(* C02_caller_eof_complete (Q-form), end to end: fault-free, the stream's context not ended (no cancellation, no
-   deadline, no SendMsg that failed), the handler returned nil and its trailer was accepted by the writer.  In every
+(* C02_caller_eof_complete (Q-form), end to end: fault-free, the caller's context not ended (no cancellation, no
+   deadline), no SendMsg of the stream failed, the handler returned nil and its trailer was accepted by the writer.  In every
    quiescent state with empty wires and inboxes, either the stream loop still holds a message for a RecvMsg the
    caller has not issued, or the terminal state (done, io.EOF) is published, no RecvMsg is pending, RecvMsg has
    returned ALL the messages the handler sent, and no RecvMsg ever returned an error other than io.EOF (or the
@@ -216,14 +216,14 @@ Theorem C02_caller_eof_complete pol ls s c k t :
   Sys.lrun pol Sys.init ls = Some s -> fault_free ls = true ->
   Sys.quiescent s = true -> Server.inbox (sv s) = [] -> Client.inbox (cl s) = [] ->
   nth_error (calls (cl s)) c = Some k -> k_unary k = false -> k_pc k = POpen ->
-  sctx_done k = false ->
+  ctx_done (k_ctx k) = false -> ~ sendfail c (Client.log (cl s)) ->
   In t (accepted (k_id k) (sv s)) -> final_of t = Some EEof ->
   (exists b, s_loop k = LHand b) \/
   (s_done k = true /\ s_rerr k = Some EEof /\ (s_recv k = RNone \/ s_recv k = RParked) /\
    msgs c (Client.log (cl s)) = pb (accepted (k_id k) (sv s)) /\
    forall e, In (EvRecvRet c (RErr e)) (Client.log (cl s)) -> e = EEof \/ e = EUnmarshal).
 Proof.
-  intros H Hff Q Hi1 Hi2 Hn Hu Hp Hctx Ht Hfin.
+  intros H Hff Q Hi1 Hi2 Hn Hu Hp Hctx Hns Ht Hfin.
   pose proof (proj_c_run _ _ _ _ H) as Hc. pose proof (proj_s_run _ _ _ _ H) as Hs.
   destruct (all_inv_reach _ _ Hc) as (HI & HS & HL). pose proof (cinv_call _ _ _ HI Hn) as K.
   destruct (cff_sys _ _ _ H Hff) as (_ & Hre & _).
@@ -252,10 +252,10 @@ Proof.
   destruct (pv_shape _ _ (pinv_reach _ (k_id k) _ _ Hs) (sys_sconf _ _ _ _ _ H Hn Hu Hpos)) as (st & Est & _).
   assert (EF : accepted (k_id k) (sv s) = map f_env (idf (k_id k) (tk (Server.log (sv s))))) by (unfold accepted; apply by_id_map_env).
   destruct (RE_sys _ _ _ H _ _ Hn Hu) as (_ & R2 & _ & R4).
-  destruct (EX_reach _ _ Hc) as (HX & _). destruct (HX _ _ Hn Hu) as (_ & XB & XC).
+  destruct (EX_reach _ _ Hc) as (HX & _). destruct (HX _ _ Hn Hu) as (_ & XB & XC & _).
   (* no exceptional cause *)
   assert (NB : ~ badc (cl s) c k).
-  { intros [X | [X | (e & He & [Hb | (err & Hf & Hne)])]]; [congruence | congruence | | ].
+  { intros [X | [X | [X | (e & He & [Hb | (err & Hf & Hne)])]]]; [congruence | contradiction | congruence | | ].
     - assert (Ia : In e (accepted (k_id k) (sv s))) by (rewrite EA; apply in_or_app; left; exact He).
       rewrite EF in Ia. apply in_map_iff in Ia. destruct Ia as (g & Eg & Hg).
       unfold idf in Hg. apply filter_In in Hg. destruct Hg as (Hg & _). rewrite Etk in Hg.
